@@ -167,14 +167,17 @@ def safeVerifyRange (H : HashFn) (p : NsProof) (root : NsHash) (rawLeaves : List
   if !validateShape p ns ns then .error .malformedProof
   else verifyRange H p root rawLeaves ns
 
+/-- the shape check of lumina's `verify_complete_namespace`: an absence proof is validated against the
+    namespace range of its leaf (which must itself be well formed), any other proof against `ns` -/
+def completeNsShapeOk (p : NsProof) (ns : Bytes) : Bool :=
+  match (if p.isAbsence then p.leaf else none) with
+  | some leaf => if ltB leaf.maxNs leaf.minNs then false else validateShape p leaf.minNs leaf.maxNs
+  | none => validateShape p ns ns
+
 /-- `NamespaceProof::verify_complete_namespace` of lumina -/
 def safeVerifyCompleteNamespace (H : HashFn) (p : NsProof) (root : NsHash) (rawLeaves : List Bytes) (ns : Bytes) :
     Except Nmt.Err Unit :=
-  let shapeOk : Bool :=
-    match (if p.isAbsence then p.leaf else none) with
-    | some leaf => if ltB leaf.maxNs leaf.minNs then false else validateShape p leaf.minNs leaf.maxNs
-    | none => validateShape p ns ns
-  if !shapeOk then .error .malformedProof
+  if !completeNsShapeOk p ns then .error .malformedProof
   else verifyCompleteNamespace H p root rawLeaves ns
 
 /-! ## `Sample` (types/src/sample.rs) -/
